@@ -276,8 +276,11 @@ static int ea_address(
 static int ea_displacement(
   AsmContext *asm_context,
   int opcode,
-  struct _operand *operand)
+  struct _operand *operand,
+  uint32_t extra_imm)
 {
+  int len = 4;
+
   if (operand->value < -32768 || operand->value > 32767)
   {
     print_error_range(asm_context, "Displacement", -32768, 32767);
@@ -294,16 +297,27 @@ static int ea_displacement(
     add_bin16(asm_context, opcode | (0x7 << 3) | 0x2, IS_OPCODE);
   }
 
+  // The second word of the instruction (movem register mask) comes before
+  // the extension word of the effective address.
+  if (extra_imm != NO_EXTRA_IMM)
+  {
+    add_bin16(asm_context, extra_imm, IS_OPCODE);
+    len += 2;
+  }
+
   add_bin16(asm_context, operand->value, IS_OPCODE);
 
-  return 4;
+  return len;
 }
 
 static int ea_displacement_xn(
   AsmContext *asm_context,
   int opcode,
-  struct _operand *operand)
+  struct _operand *operand,
+  uint32_t extra_imm)
 {
+  int len = 4;
+
   if (operand->value < -128 || operand->value > 127)
   {
     print_error_range(asm_context, "Displacement", -128, 127);
@@ -320,11 +334,17 @@ static int ea_displacement_xn(
     add_bin16(asm_context, opcode | (0x7 << 3) | 0x3, IS_OPCODE);
   }
 
+  if (extra_imm != NO_EXTRA_IMM)
+  {
+    add_bin16(asm_context, extra_imm, IS_OPCODE);
+    len += 2;
+  }
+
   // [D=0/A=1] [REG3] [W=0/L=1] [000] [DISP8]
   //add_bin16(asm_context, (operand->xn_reg << 12) | (operand->xn_size == SIZE_L ? (1 << 11) | (operand->value & 0xff) : 0), IS_OPCODE);
   add_bin16(asm_context, (operand->xn_reg << 12) | (operand->xn_size == SIZE_L ? (1 << 11) : 0) | (operand->scale << 8) | (operand->value & 0xff), IS_OPCODE);
 
-  return 4;
+  return len;
 }
 
 static int ea_generic_all(
@@ -363,9 +383,9 @@ static int ea_generic_all(
       }
       return 2;
     case OPERAND_INDEX_DATA16_A_REG:
-      return ea_displacement(asm_context, opcode, operand);
+      return ea_displacement(asm_context, opcode, operand, extra_imm);
     case OPERAND_INDEX_DATA8_A_REG_XN:
-      return ea_displacement_xn(asm_context, opcode, operand);
+      return ea_displacement_xn(asm_context, opcode, operand, extra_imm);
     case OPERAND_ADDRESS_W:
       return ea_address(asm_context, opcode, operand, extra_imm, 2);
     case OPERAND_ADDRESS_L:
@@ -375,9 +395,9 @@ static int ea_generic_all(
       return ea_immediate(asm_context, opcode, size, operand);
     case OPERAND_INDEX_DATA16_PC:
       if (flags & EA_NO_PC) { break; }
-      return ea_displacement(asm_context, opcode, operand);
+      return ea_displacement(asm_context, opcode, operand, extra_imm);
     case OPERAND_INDEX_DATA8_PC_XN:
-      return ea_displacement_xn(asm_context, opcode, operand);
+      return ea_displacement_xn(asm_context, opcode, operand, extra_imm);
     default:
       break;
   }
@@ -421,9 +441,9 @@ static int ea_generic_new(
       }
       return 2;
     case OPERAND_INDEX_DATA16_A_REG:
-      return ea_displacement(asm_context, opcode, operand);
+      return ea_displacement(asm_context, opcode, operand, extra_imm);
     case OPERAND_INDEX_DATA8_A_REG_XN:
-      return ea_displacement_xn(asm_context, opcode, operand);
+      return ea_displacement_xn(asm_context, opcode, operand, extra_imm);
     case OPERAND_ADDRESS_W:
       return ea_address(asm_context, opcode, operand, extra_imm, 2);
     case OPERAND_ADDRESS_L:
@@ -433,10 +453,10 @@ static int ea_generic_new(
       return ea_immediate(asm_context, opcode, size, operand);
     case OPERAND_INDEX_DATA16_PC:
       if (omit_mode & MODE_D16_PC) { break; }
-      return ea_displacement(asm_context, opcode, operand);
+      return ea_displacement(asm_context, opcode, operand, extra_imm);
     case OPERAND_INDEX_DATA8_PC_XN:
       if (omit_mode & MODE_D8_PC_XN) { break; }
-      return ea_displacement_xn(asm_context, opcode, operand);
+      return ea_displacement_xn(asm_context, opcode, operand, extra_imm);
     default:
       break;
   }
